@@ -165,7 +165,13 @@ def _run_case(x, xr, case, nvars, c0, engine, stats, tainted):
                             var_coords={"t": T_COORD} if nvars > 1 else None,
                             constants=consts, resources={"epoch": epoch})
 
+        per_call = bool(case.get("engine_per_call"))
+        ekw = {"engine": engine} if per_call else {}
+
         def new_session():
+            if per_call:
+                # default engine at construction, the real one on every call
+                return x.Harvester(make_runner(0), data_name=data_name)
             return x.Harvester(make_runner(0), data_name=data_name,
                                engine=engine)
 
@@ -178,6 +184,8 @@ def _run_case(x, xr, case, nvars, c0, engine, stats, tainted):
         def verify(tag):
             if mem.exists and not stale:
                 with under_test("full_ds"):
+                    if per_call and h._full_ds is None:
+                        h.load_full_ds(engine=engine)
                     full = h.full_ds
                 check_against(full, mem, c0, nvars, f"{tag}: full_ds")
             if disk.exists:
@@ -216,7 +224,7 @@ def _run_case(x, xr, case, nvars, c0, engine, stats, tainted):
                     sync = True
                     if pending:
                         with under_test("save_full_ds before the rival acts"):
-                            h.save_full_ds()
+                            h.save_full_ds(**ekw)
                         disk = mem.clone()
                         pending = False
                     if rival[0] is None:
@@ -237,7 +245,7 @@ def _run_case(x, xr, case, nvars, c0, engine, stats, tainted):
                         tainted[0] = True
                     else:
                         with under_test("save_full_ds (auto flush)"):
-                            h.save_full_ds()
+                            h.save_full_ds(**ekw)
                         disk = mem.clone()
                         pending = False
                         stats["auto_flush"] += 1
@@ -257,15 +265,16 @@ def _run_case(x, xr, case, nvars, c0, engine, stats, tainted):
                         if o == "combos":
                             actor.harvest_combos(
                                 {d: sel[d] for d in dims}, overwrite=pol,
-                                sync=sync, verbosity=0)
+                                sync=sync, verbosity=0, **ekw)
                         elif o == "cases":
                             actor.harvest_cases(locs, overwrite=pol, sync=sync,
-                                            fn_args=tuple(dims), verbosity=0)
+                                                fn_args=tuple(dims),
+                                                verbosity=0, **ekw)
                         else:
                             r2 = make_runner(epoch)
                             ds = r2.run_combos({d: sel[d] for d in dims},
                                                verbosity=0)
-                            actor.add_ds(ds, overwrite=pol, sync=sync)
+                            actor.add_ds(ds, overwrite=pol, sync=sync, **ekw)
                 except xr.MergeError as e:
                     raised = e
                 if not ok:
@@ -301,7 +310,7 @@ def _run_case(x, xr, case, nvars, c0, engine, stats, tainted):
             elif o in ("expand", "drop", "flush") and stale:
                 # the user refreshes the out-of-date session first
                 with under_test("load_full_ds (refresh)"):
-                    h.load_full_ds()
+                    h.load_full_ds(**ekw)
                 mem = disk.clone()
                 stale = False
                 continue
@@ -309,7 +318,9 @@ def _run_case(x, xr, case, nvars, c0, engine, stats, tainted):
                 if expanded[0] or not mem.exists:
                     continue
                 with under_test(tag):
-                    h.expand_dims("c", c0)
+                    if per_call:
+                        h.load_full_ds(engine=engine)
+                    h.expand_dims("c", c0, **ekw)
                 expanded[0] = True
                 for m in (mem,):
                     m.dims = ["a", "b", "c"]
@@ -327,7 +338,9 @@ def _run_case(x, xr, case, nvars, c0, engine, stats, tainted):
                     continue
                 lab = labs[op["idx"] % len(labs)]
                 with under_test(tag):
-                    h.drop_sel({d: [lab]})
+                    if per_call and h._full_ds is None:
+                        h.load_full_ds(engine=engine)
+                    h.drop_sel({d: [lab]}, **ekw)
                 i = mem.dims.index(d)
                 mem.coords[d].discard(lab)
                 mem.data = {loc: e for loc, e in mem.data.items()
@@ -338,13 +351,13 @@ def _run_case(x, xr, case, nvars, c0, engine, stats, tainted):
                 if not mem.exists:
                     continue
                 with under_test(tag):
-                    h.save_full_ds()
+                    h.save_full_ds(**ekw)
                 disk = mem.clone()
                 pending = False
             elif o == "session":
                 if pending:
                     with under_test("save_full_ds before new session"):
-                        h.save_full_ds()
+                        h.save_full_ds(**ekw)
                     disk = mem.clone()
                     pending = False
                 h = new_session()
@@ -356,6 +369,8 @@ def _run_case(x, xr, case, nvars, c0, engine, stats, tainted):
         if disk.exists:
             h2 = new_session()
             with under_test("final new session"):
+                if per_call:
+                    h2.load_full_ds(engine=engine)
                 f2 = h2.full_ds
             check_against(f2, disk, c0, nvars, "final new session: full_ds")
     nsteps = len(case["ops"])
@@ -469,7 +484,8 @@ def strategy(draw):
             "engine": draw(st.sampled_from(["h5netcdf", "h5netcdf",
                                             "joblib"])),
             "dname": draw(st.sampled_from(["full.h5", "full", "results",
-                                           "full.dmp", "d.nc"]))}
+                                           "full.dmp", "d.nc"])),
+            "engine_per_call": draw(st.sampled_from([False, False, True]))}
 
 
 @st.composite
